@@ -172,9 +172,31 @@ def run(ck, prog, tier, load):
             for lab, tb in br[1]:
                 if labels_in(lab, ("Pause",)):
                     pause.add(tb)
+    # the same test spelled `matches!(status, Some(Pause))`: the edge of the bool switch taken when the temporary holds the
+    # constant stored in the Pause arm is an edge "under Pause" too
+    pause_edges = set()
+    for a in ra.live:
+        br = ra.branch(a)
+        if not br:
+            continue
+        e0, pos = strip_not(br[0], True)
+        if not (isinstance(e0, tuple) and e0[0] == "phi"):
+            continue
+        alld = ra.defs().get(e0[1], [])
+        if not alld or not all(d[0] == "=" and d[3]["k"] == "use" and "const" in d[3]["ops"][0] for d in alld):
+            continue
+        for lab, tb2 in br[1]:
+            if not isinstance(lab, bool):
+                continue
+            want = 1 if (lab if pos else not lab) else 0
+            arms = [d for d in alld if d[3]["ops"][0]["const"].get("int") == want]
+            if len(arms) == 1 and any(c[0] == "discr" and c[2] == "actix_http::h1::payload::PayloadStatus" and labels_in(lab2, ("Pause",)) for c, lab2, a2 in ra.guards(arms[0][1])):
+                pause_edges.add((a, tb2))
     for a, tb in full:
-        ok, wit = ra.must_pass([tb], ra.returns(), rwk | pause)
-        ck.ob("C04-b.buffer-full-exit", "read_available", ok and bool(pause), ra, tb,
+        r_ = ra.reach([tb], removed=rwk | pause, removed_edges=pause_edges)
+        ok = tb not in (rwk | pause) and not (set(ra.returns()) & set(r_)) or tb in (rwk | pause)
+        wit = None if ok else ra.path_between([tb], sorted(set(ra.returns()) & set(r_))[0], removed=rwk | pause, removed_edges=pause_edges)
+        ck.ob("C04-b.buffer-full-exit", "read_available", ok and bool(pause or pause_edges), ra, tb,
               "the buffer-full early return either waits for the body consumer (need_read == Pause, which registered the task) or self-wakes", witness=ra.path_lines(wit))
     # read path: every return Ok(false) of read_available outside the full/disconnect exits follows a Pending/WouldBlock of the socket
     # poll_linger
